@@ -667,6 +667,9 @@ def run(tier: str) -> int:
         U.sarray(U.uint(64), 4), U.darray(U.uint(32)), U.darray(A), U.sarray(U.tup(U.uint(8), B, B), 5),
     ]]
 
+    # the hand-picked layouts first: under load the time budget of the end-to-end part must cut random shapes, not these
+    types.sort(key=lambda ts: 0 if ts[1] == "handpicked" else 1)
+
     # ---- descriptors: model vs real
     descr_n, descr_bad = 0, 0
     for t, _src in types:
